@@ -14,6 +14,19 @@ TRUSTED_BASE = [
 ]
 
 PLAN = {
+    "C12": {
+        "level": "proof",
+        "contracts": ["contracts.parser_cache"],
+    },
+    "C06": {
+        "level": "proof",
+        "contracts": ["contracts.parser_state"],
+        "bounded": ["bounded.c06_termination"],
+    },
+    "C18": {
+        "level": "other",
+        "other": "props.c18",
+    },
     "C07": {
         "level": "proof",
         "contracts": ["contracts.evaluation", "contracts.constraints"],
